@@ -20,7 +20,7 @@ PROPERTY = "C14"
 LEVEL = "exploration"
 CORE = "dclab.rtdc_dataset.core:RTDCBase.basins_retrieve"
 N = 4
-FEATS = ["deform", "area_um", "bright_avg", "pos_x"]
+FEATS = ["deform", "area_um", "bright_avg", "pos_x", "pos_y", "size_x"]
 TIMEOUT = 20
 
 
@@ -225,6 +225,17 @@ SHAPES = {
     "cycle4": (4, [(0, 1), (1, 2), (2, 3), (3, 0)]),
     "chain4": (4, [(0, 1), (1, 2), (2, 3)]),
 }
+# graphs on 5 and 6 files (thorough tier; identifiers: all equal and every
+# single-position deviation)
+BIG_SHAPES = {
+    "cycle5": (5, [(0, 1), (1, 2), (2, 3), (3, 4), (4, 0)]),
+    "cycle6": (6, [(0, 1), (1, 2), (2, 3), (3, 4), (4, 5), (5, 0)]),
+    "chain6": (6, [(0, 1), (1, 2), (2, 3), (3, 4), (4, 5)]),
+    "lasso6": (6, [(0, 1), (1, 2), (2, 3), (3, 4), (4, 5), (5, 2)]),
+    "ladder6": (6, [(0, 1), (0, 2), (1, 3), (2, 3), (3, 4), (3, 5),
+                    (4, 5), (5, 0)]),
+}
+SHAPES.update(BIG_SHAPES)
 
 
 def _id_case(args):
@@ -336,6 +347,46 @@ def _remote_case(args):
                     CORE, "local-basin-opened-from-network-format", case,
                     f"h5py.File opened local paths {local} below an "
                     f"RTDC_HTTP dataset", tags))
+        elif variant in ("internal-behind-file", "internal-http",
+                         "internal-behind-remote"):
+            # f1 carries an internal basin for pos_y (2 stored rows, map
+            # [0,1,1,0]); f0 refers to f1 by file / remote definition
+            from dclab.rtdc_dataset.writer import RTDCWriter
+            paths = write_graph(
+                d, 2, [(0, 1)],
+                remote_host={(0, 1)} if variant.endswith("remote") else None)
+            imap = np.array([0, 1, 1, 0], dtype=np.uint64)
+            with RTDCWriter(paths[1], mode="append") as hw:
+                hw.store_basin("vf-int", "internal", "h5dataset",
+                               ["basin_events"], basin_feats=["pos_y"],
+                               basin_map=imap,
+                               internal_data={"pos_y": np.array([7.5, 9.5])})
+            for p_ in paths:
+                host.add(f"http://vf.example/{p_.name}", p_.read_bytes())
+            want = np.array([7.5, 9.5])[imap.astype(int)]
+            with fakehttp.installed(host):
+                if variant == "internal-http":
+                    ds = fmt_http.RTDC_HTTP("http://vf.example/f1.rtdc")
+                else:
+                    ds = dclab.new_dataset(paths[0])
+                try:
+                    if "pos_y" not in ds:
+                        out.append(violation(
+                            CORE, "feature-not-offered", case,
+                            "pos_y of the internal basin is not offered",
+                            tags))
+                    elif not gen.arrays_equal(np.asarray(ds["pos_y"][:]),
+                                              want):
+                        out.append(violation(
+                            CORE, "wrong-data", case,
+                            f"pos_y {np.asarray(ds['pos_y'][:])} != {want}",
+                            tags))
+                    if variant != "internal-http" and not gen.arrays_equal(
+                            np.asarray(ds["area_um"][:]), data_for(1)):
+                        out.append(violation(
+                            CORE, "wrong-data", case, "area_um of f1", tags))
+                finally:
+                    ds.close()
         elif variant == "remote-unreachable":
             edges = [(0, 1)]
             paths = write_graph(d, 2, edges, remote_host={(0, 1)})
@@ -364,6 +415,15 @@ def run(ctx):
     for shape in (("edge", "chain", "cycle3") if ctx.quick else
                   tuple(SHAPES)):
         nfiles = SHAPES[shape][0]
+        if shape in BIG_SHAPES:
+            allids = [("same",) * nfiles]
+            for pos in range(nfiles):
+                for other in idnames[1:]:
+                    allids.append(("same",) * pos + (other,)
+                                  + ("same",) * (nfiles - pos - 1))
+            for k in range(0, len(allids), 4):
+                iitems.append((shape, allids[k:k + 4], True, "abs", scratch))
+            continue
         allids = list(itertools.product(idnames, repeat=nfiles))
         if nfiles == 4 and ctx.quick:
             continue
@@ -374,9 +434,11 @@ def run(ctx):
             iitems.append((shape, [("same",) * SHAPES[shape][0]], False, loc,
                            scratch))
     res += par.pmap(_id_case, iitems)
-    res += par.pmap(_restrict_case, [(sh, scratch) for sh in SHAPES])
+    res += par.pmap(_restrict_case, [(sh, scratch) for sh in SHAPES
+                                     if sh not in BIG_SHAPES])
     res += par.pmap(_remote_case, [(v, scratch) for v in (
-        "remote-chain", "http-open", "remote-unreachable")])
+        "remote-chain", "http-open", "remote-unreachable",
+        "internal-behind-file", "internal-http", "internal-behind-remote")])
     viols = []
     cnt = 0
     for n, vs in res:
@@ -401,7 +463,8 @@ def run(ctx):
                 "a referrer without run identifier is unconstrained (dclab "
                 "documents that no check is possible)",
                 f"non-termination = open/read exceeding {TIMEOUT} s",
-                "graphs with more than 4 files are not enumerated"]}
+                "graphs on 5 and 6 files: five shapes (cycles, chain, lasso, "
+                "ladder) in the thorough tier only, not all graphs"]}
 
 
 def replay(case, ctx):
